@@ -56,9 +56,10 @@ struct C {
     init: i64,
 }
 
+type RS = std::collections::hash_map::RandomState;
 enum Built {
-    U(mini_moka::unsync::Cache<u32, u32>),
-    S(mini_moka::sync::Cache<u32, u32>),
+    U(mini_moka::unsync::Cache<u32, u32, RS>),
+    S(mini_moka::sync::Cache<u32, u32, RS>),
 }
 
 fn weigh(_k: &u32, v: &u32) -> u32 {
@@ -86,6 +87,9 @@ fn build(c: &C) -> Built {
         if c.tti >= 0 {
             b = b.time_to_idle(dur_of_idx(c.tti));
         }
+        if c.via == "with_hasher" {
+            return Built::U(b.build_with_hasher(std::collections::hash_map::RandomState::new()));
+        }
         Built::U(b.build())
     } else {
         if c.via == "new" {
@@ -107,6 +111,9 @@ fn build(c: &C) -> Built {
         if c.tti >= 0 {
             b = b.time_to_idle(dur_of_idx(c.tti));
         }
+        if c.via == "with_hasher" {
+            return Built::S(b.build_with_hasher(std::collections::hash_map::RandomState::new()));
+        }
         Built::S(b.build())
     }
 }
@@ -119,7 +126,9 @@ fn policy_json(b: &Built) -> Value {
     json!({"cap": idx_of_cap(p.max_capacity()), "ttl": idx_of_dur(p.time_to_live()), "tti": idx_of_dur(p.time_to_idle())})
 }
 
-/// The fixed follow-up history (no `get`, so no admission decision depends on the hasher).
+/// The fixed follow-up history (no `get` before the last insert, so no admission decision depends
+/// on the hasher).  Its second half tells time_to_live from time_to_idle: half a second, a read
+/// of key 1, another half second, then `contains_key` of 1 and 3.
 fn follow(b: &mut Built, dead: bool) -> Value {
     let clock = MockClock::new();
     let hide = |x: u64| if dead { -1 } else { x as i64 };
@@ -133,7 +142,13 @@ fn follow(b: &mut Built, dead: bool) -> Value {
             let (ec, ws) = (c.entry_count(), c.weighted_size());
             c.invalidate(&2);
             let c2a = c.contains_key(&2);
-            json!({"c1": c1, "c2": c2, "c3": c3, "ec": hide(ec), "ws": hide(ws), "c2after": c2a, "ecafter": hide(c.entry_count())})
+            let eca = c.entry_count();
+            clock.advance(Duration::from_millis(500));
+            let g1 = c.get(&1).map(|v| *v as i64).unwrap_or(-1);
+            clock.advance(Duration::from_millis(500));
+            let (t1, t3) = (c.contains_key(&1), c.contains_key(&3));
+            json!({"c1": c1, "c2": c2, "c3": c3, "ec": hide(ec), "ws": hide(ws), "c2after": c2a, "ecafter": hide(eca),
+                "g1": g1, "t1": t1, "t3": t3})
         }
         Built::S(c) => {
             c.verif_set_clock(&clock);
@@ -146,7 +161,14 @@ fn follow(b: &mut Built, dead: bool) -> Value {
             c.invalidate(&2);
             c.sync();
             let c2a = c.contains_key(&2);
-            json!({"c1": c1, "c2": c2, "c3": c3, "ec": hide(ec), "ws": hide(ws), "c2after": c2a, "ecafter": hide(c.entry_count())})
+            let eca = c.entry_count();
+            clock.advance(Duration::from_millis(500));
+            let g1 = c.get(&1).map(|v| v as i64).unwrap_or(-1);
+            c.sync();
+            clock.advance(Duration::from_millis(500));
+            let (t1, t3) = (c.contains_key(&1), c.contains_key(&3));
+            json!({"c1": c1, "c2": c2, "c3": c3, "ec": hide(ec), "ws": hide(ws), "c2after": c2a, "ecafter": hide(eca),
+                "g1": g1, "t1": t1, "t3": t3})
         }
     }
 }
@@ -207,6 +229,9 @@ pub fn cmd_build(args: &[String]) {
             let mut t = c.clone();
             t.init = if c.init == -1 { 2 } else { -1 };
             twins.push(("other_initial_capacity", t));
+            let mut t = c.clone();
+            t.via = "with_hasher".into();
+            twins.push(("with_hasher", t));
             if c.cap != -1 && c.ttl == -1 && c.tti == -1 && !c.weigher {
                 let mut t = c.clone();
                 t.via = "new".into();
@@ -219,8 +244,9 @@ pub fn cmd_build(args: &[String]) {
             twins.push(("builder_form", t));
         }
         for (which, t) in twins {
-            let (tp, _pol, tf) = run_one(&t);
-            writeln!(out, "{}", json!({"ev": "Twin", "which": which, "panicked": tp, "obs": tf.unwrap_or(json!({}))})).unwrap();
+            let (tp, pol, tf) = run_one(&t);
+            writeln!(out, "{}", json!({"ev": "Twin", "which": which, "panicked": tp, "policy": pol,
+                "obs": tf.unwrap_or(json!({}))})).unwrap();
             events += 1;
         }
         n += 1;
